@@ -158,7 +158,7 @@ def compile_generated(ctx, man, timeout):
                 ctx.obligations.append((l, True, 'coq/gen/obl/C16_%s.v' % k['name']))
             for line in out.splitlines():
                 m = line.strip().split(' ')[0]
-                if '.' in m and line[:1] not in (' ', '\t') and ':' in line:
+                if '.' in m and line[:1] not in (' ', '\t') and m[0].isalpha() and not m.endswith(':'):
                     axioms.add(m)
         else:
             msg = '\n'.join(l for l in (err or out).splitlines() if 'not in the ideal' not in l)[-1500:]
